@@ -154,6 +154,8 @@ type Opt struct {
 	// StdinPieces > 1 delivers Stdin in that many pieces with a pause between them (a producer that is slower
 	// than crd: reads return short).
 	StdinPieces int
+	// StdoutKind "socket": the standard output of the child is a socket instead of a pipe.
+	StdoutKind string
 	// StdinDelay makes the producer of the standard input start late: nothing arrives (and the pipe stays open) for
 	// that long. It is a property of the environment, never part of a verdict.
 	StdinDelay time.Duration
@@ -221,12 +223,45 @@ func (r *Runner) Run(o Opt, args ...string) *Result {
 	se := &capBuf{max: r.MaxOut}
 	cmd.Stdout = so
 	cmd.Stderr = se
+	var sockDone chan struct{}
+	if o.StdoutKind == "socket" {
+		// the standard output of the child is one end of a socket pair (as under inetd, or `crd ... | nc`): a path like
+		// /dev/stdout cannot be opened then, writing to the descriptor works as ever
+		fds, err := syscall.Socketpair(syscall.AF_UNIX, syscall.SOCK_STREAM, 0)
+		if err != nil {
+			return &Result{Argv: append([]string{}, args...), StartErr: err, Exit: -1}
+		}
+		child := os.NewFile(uintptr(fds[0]), "socket-stdout")
+		cmd.Stdout = child
+		sockDone = make(chan struct{})
+		go func() {
+			defer close(sockDone)
+			buf := make([]byte, 65536)
+			for {
+				n, err := syscall.Read(fds[1], buf)
+				if n > 0 {
+					so.Write(buf[:n])
+				}
+				if err == syscall.EINTR {
+					continue
+				}
+				if err != nil || n <= 0 {
+					return
+				}
+			}
+		}()
+		after = append(after, func() { syscall.Close(fds[1]) })
+	}
 	res := &Result{Argv: append([]string{}, args...)}
 	err := cmd.Start()
 	if err == nil {
 		done := make(chan error, 1)
 		go func() { done <- cmd.Wait() }()
 		err = r.supervise(cmd, done, res, o.IdleAfter)
+	}
+	if sockDone != nil {
+		cmd.Stdout.(*os.File).Close()
+		<-sockDone
 	}
 	res.Stdout = so.b.Bytes()
 	res.Stderr = se.b.Bytes()
